@@ -111,6 +111,62 @@ LookupOn(d, ord, op, rf, za) == ResultOn(d, ord, op, rf, ReplicaWalk(d, op, rf, 
 Lookup(M, d, k, op, rf, za) == LookupOn(d, WalkOrder(M, d, k), op, rf, za)
 
 (***************************************************************************)
+(* Configuration and per-call options.                                     *)
+(*                                                                         *)
+(* ExcludedZones (ring.Config): instances of an excluded zone are dropped  *)
+(* from the descriptor before anything is indexed - the ring behaves       *)
+(* exactly like the ring over the remaining instances (lookups, the        *)
+(* ring-wide replication sets, the instance and zone counts they use).     *)
+(*                                                                         *)
+(* GetWithOptions(WithReplicationFactor(callRF)): a per-call replication   *)
+(* factor that is not positive or below the configured one is replaced by  *)
+(* the configured one.  One above the configured factor is refused by the  *)
+(* default replication strategy (it equates replication factor and number  *)
+(* of zones and returns one instance per zone, SupportsExpandedReplication *)
+(* = false): the call fails with "rf-exceeds" - unless the ring has no     *)
+(* tokens, which is reported first.  (Only the ignore-unhealthy strategy   *)
+(* opts into expanded replication, see LookupIgnoreUnhealthy below.)       *)
+(***************************************************************************)
+ExcludeZones(d, X) == [i \in {j \in DOMAIN d : d[j].zone \notin X} |-> d[i]]
+
+LookupCall(M, d, k, op, cfgRF, callRF, za) ==
+    IF AllTokens(d) = {} THEN NoResult("empty", {})
+    ELSE IF callRF > cfgRF THEN NoResult("rf-exceeds", {})
+    ELSE Lookup(M, d, k, op, cfgRF, za)
+
+(***************************************************************************)
+(* The ignore-unhealthy replication strategy                               *)
+(* (NewIgnoreUnhealthyInstancesReplicationStrategy) differs in two ways:   *)
+(*  - a lookup succeeds as soon as ONE walked instance is healthy and      *)
+(*    tolerates healthy - 1 errors (no majority);                          *)
+(*  - it supports expanded replication: with a per-call factor callRF      *)
+(*    above the configured one the walk takes the first callRF replicas    *)
+(*    proper, and with zone-awareness at most callRF \div cfgRF of them    *)
+(*    per zone (the configured factor stands for the number of zones);     *)
+(*    extending instances are added as before.                             *)
+(* MarksT is Marks for "at most t replicas proper per zone": an instance   *)
+(* is passed over iff t earlier non-extending instances share its zone.    *)
+(***************************************************************************)
+MarksT(d, op, za, ord, t) ==
+    LET L    == Len(ord)
+        ext  == TLCEval([n \in 1..L |-> Extends(d, op, ord[n])])
+        zn   == TLCEval([n \in 1..L |-> d[ord[n]].zone])
+        elig == TLCEval([n \in 1..L |-> ~za \/ zn[n] = 0
+                            \/ Cardinality({m \in 1..(n-1) : ~ext[m] /\ zn[m] = zn[n]}) < t])
+    IN [n \in 1..L |-> <<elig[n], Cardinality({m \in 1..(n-1) : elig[m] /\ ~ext[m]})>>]
+
+LookupIgnoreUnhealthy(M, d, k, op, cfgRF, callRF, za) ==
+    IF AllTokens(d) = {} THEN NoResult("empty", {})
+    ELSE LET rf  == IF callRF <= 0 \/ callRF < cfgRF THEN cfgRF ELSE callRF
+             t   == Max2(1, rf \div cfgRF)
+             ord == TLCEval(WalkOrder(M, d, k))
+             W   == Pick(ord, TLCEval(MarksT(d, op, za, ord, t)), rf)
+             H   == {i \in W : Healthy(d, op, i)}
+         IN IF H = {} THEN [NoResult("unhealthy", W) EXCEPT !.plain = FALSE]
+            ELSE [ok |-> TRUE, err |-> "", ids |-> H, maxErrors |-> Cardinality(H) - 1,
+                  walked |-> W, plain |-> FALSE, code |-> 0]
+
+(***************************************************************************)
 (* The ring-wide replication set for an operation                          *)
 (* (GetReplicationSetForOperation; ReadSet = the one for Read).  All       *)
 (* registered instances count, also those without tokens.  Without         *)
